@@ -9,7 +9,7 @@ import z3
 from . import values
 from .values import PathEnd, PyRaise, Unsupported, concrete, reset_fresh, zbool
 
-FEAS_TIMEOUT_MS = 3000
+FEAS_TIMEOUT_MS = int(__import__("os").environ.get("VF_FEAS_MS", "400"))
 
 
 @dataclass
@@ -141,15 +141,29 @@ class Run:
         return False
 
     # -------------------------------------------------------------- obligations
-    def oblige(self, name, goal, kind='post', exact=True, extra_hyps=(), meta=None):
+    def oblige(self, name, goal, kind='post', exact=True, extra_hyps=(), meta=None, split=True):
+        """record a proof obligation under the current path condition; a top-level conjunction is split"""
         if goal is True:
             goal = z3.BoolVal(True)
         elif goal is False:
             goal = z3.BoolVal(False)
-        ob = Obligation(name=name, hyps=list(self.axioms) + list(self.pc) + list(extra_hyps), goal=zbool(goal),
-                        kind=kind, exact=exact, path=tuple(self.decisions), meta=dict(meta or {}))
-        self.obligations.append(ob)
-        return ob
+        goal = zbool(goal)
+        goals = list(goal.children()) if split and z3.is_and(goal) and goal.num_args() > 1 else [goal]
+        out = []
+        for i, g in enumerate(goals):
+            m = dict(meta or {})
+            self._nob = getattr(self, '_nob', 0) + 1
+            m.setdefault('ordinal', self._nob)
+            ob = Obligation(name=name + (f'.{i + 1}' if len(goals) > 1 else ''),
+                            hyps=list(self.axioms) + list(self.pc) + list(extra_hyps), goal=g,
+                            kind=kind, exact=exact, path=tuple(self.decisions), meta=m)
+            self.obligations.append(ob)
+            out.append(ob)
+        return out[0] if len(out) == 1 else out
+
+
+class ReturnLeak(Exception):
+    pass
 
 
 @dataclass
@@ -182,6 +196,11 @@ def explore(thunk, axioms=(), max_paths=4000):
             outcome = ('end', str(e))
         except Unsupported as e:
             outcome = ('unsupported', str(e))
+        except (ReturnLeak, RecursionError, z3.Z3Exception, TypeError, AttributeError, KeyError, IndexError,
+                ValueError, AssertionError) as e:      # engine-level failure on this path: undecided, never a verdict
+            import traceback
+            tb = traceback.extract_tb(e.__traceback__)[-1]
+            outcome = ('unsupported', f'engine error {type(e).__name__}: {e} at {tb.filename.rsplit("/", 1)[-1]}:{tb.lineno}')
         work.extend(run.alternatives)
         results.append(PathResult(tuple(run.decisions), list(run.pc), list(run.axioms), outcome,
                                   run.obligations, run.events, run.ghost, run))
